@@ -15,7 +15,6 @@ Module OMP.
     panic s = false /\
     closing_ch s = once s /\
     (closed_ch s = true -> ml s = MDone) /\
-    (ml s = MDone -> closed_ch s = true \/ once s = false /\ closing_ch s = false) /\
     (kc s <> KIdle -> once s = true) /\
     Forall pom_ok (poms s).
 
@@ -62,7 +61,7 @@ Module OMP.
 
   Lemma set_flush_inv s f : Inv s -> Inv (set_flush s f).
   Proof.
-    intros (Hp & Hc & Hcl & Hml & Hk & Hf). unfold set_flush.
+    intros (Hp & Hc & Hcl & Hk & Hf). unfold set_flush.
     destruct (ml s) eqn:Em; try (destruct (kc s) eqn:Ek); unfold Inv, set_ml, set_kc, mk; cbn; rewrite ?Em, ?Ek;
       repeat split; auto; try discriminate; try congruence; intros; try (apply Hk; congruence).
     all: try (match goal with X : closed_ch _ = true |- _ => specialize (Hcl X); discriminate end).
@@ -74,7 +73,7 @@ Module OMP.
   Proof. unfold set_flush. destruct (ml s); try destruct (kc s); cbn; auto 10. Qed.
 
   Lemma inv_set_poms s ps : Inv s -> Forall pom_ok ps -> Inv (set_poms s ps).
-  Proof. intros (Hp & Hc & Hcl & Hml & Hk & Hf) H. unfold Inv, set_poms, mk; cbn. repeat split; auto. Qed.
+  Proof. intros (Hp & Hc & Hcl & Hk & Hf) H. unfold Inv, set_poms, mk; cbn. repeat split; auto. Qed.
 
   (* a flush in progress means its owner is past the points the other clauses constrain *)
   Lemma cur_flush_ml s f : cur_flush s = Some f -> (exists g, ml s = MFlush g) \/ (exists a g, kc s = KFlush a g).
@@ -88,7 +87,7 @@ Module OMP.
     - inversion H; subst. constructor; eauto.
   Qed.
 
-  Ltac simple_inv Hp Hc Hcl Hml Hk :=
+  Ltac simple_inv Hp Hc Hcl Hk :=
     unfold Inv, set_ml, set_kc, set_poms, mk; cbn; rewrite ?Hp; cbn;
     repeat split; auto; try discriminate; try congruence;
     try (let Hx := fresh "Hx" in intro Hx; specialize (Hcl Hx); congruence);
@@ -96,7 +95,7 @@ Module OMP.
 
   Lemma inv_step c s a s' : Inv s -> step c s a = Some s' -> Inv s'.
   Proof.
-    intros I H. pose proof I as (Hp & Hc & Hcl & Hml & Hk & Hf).
+    intros I H. pose proof I as (Hp & Hc & Hcl & Hk & Hf).
     destruct a; scbn H.
     - (* AMark *) destruct (nth_error (poms s) i); [|discriminate]. injection H as <-.
       apply inv_set_poms; auto. apply forall_upd_nth; auto; try set_ok.
@@ -104,7 +103,7 @@ Module OMP.
       apply inv_set_poms; auto. apply forall_upd_nth; auto; try set_ok.
     - (* ATick *) destruct (ml s) eqn:Em; try discriminate.
       destruct (closing_ch s) eqn:Ec; [destruct (fuel s); [discriminate|]|]; injection H as <-;
-        simple_inv Hp Hc Hcl Hml Hk.
+        simple_inv Hp Hc Hcl Hk.
     - (* AMSeeClosing *) destruct (ml s) eqn:Em; try discriminate. destruct (closing_ch s) eqn:Ec; [|discriminate].
       injection H as <-.
       assert (Hcc : closed_ch s = false).
@@ -128,14 +127,14 @@ Module OMP.
         apply andb_true_iff in Em as [Em _].
         pose proof (nth_error_forall _ _ _ _ Hf En) as [Pm Pc]. rewrite Em in Pm.
         assert (Hcl' : closed (errs p) = false) by (destruct (rel_once p); cbn in *; congruence).
-        pose proof (set_flush_inv s (FlErrs (S i)) I) as (Hp2 & Hc2 & Hcl2 & Hml2 & Hk2 & Hf2).
+        pose proof (set_flush_inv s (FlErrs (S i)) I) as (Hp2 & Hc2 & Hcl2 & Hk2 & Hf2).
         pose proof (set_flush_fields s (FlErrs (S i))) as (F1 & F2 & F3 & F4 & F5 & F6 & F7).
         unfold Inv, mk; cbn. rewrite Hp, Hcl'. cbn. rewrite <- ?F3, <- ?F4, <- ?F5. repeat split; auto.
         eapply forall_upd_nth_at; eauto. unfold pom_ok, set_errs; cbn. split; congruence.
       + injection H as <-. apply set_flush_inv. apply inv_set_poms; auto.
-        apply forall_map; auto. intros x [X1 X2]. destruct (managed x); auto. split; auto.
+        apply forall_map; auto. intros x [X1 X2]. destruct (managed x) eqn:Emx; unfold pom_ok, set_dirty; cbn; split; congruence.
       + destruct (ml s) eqn:Em; try (destruct (kc s) eqn:Ek); try discriminate; injection H as <-;
-          simple_inv Hp Hc Hcl Hml Hk.
+          simple_inv Hp Hc Hcl Hk.
     - (* AFlHand *) destruct (cur_flush s) as [[| | |j| |]|] eqn:Ef; try discriminate.
       destruct (negb (j =? i)); [discriminate|]. destruct (npom c <=? j); [discriminate|].
       destruct (nth_error (poms s) j) as [p|] eqn:En; [|discriminate].
@@ -143,19 +142,16 @@ Module OMP.
       apply andb_true_iff in Em as [Em _]. apply andb_true_iff in Em as [Em _].
       pose proof (nth_error_forall _ _ _ _ Hf En) as [Pm Pc]. rewrite Em in Pm.
       assert (Hcl' : closed (errs p) = false) by (destruct (rel_once p); cbn in *; congruence).
-      pose proof (set_flush_inv s (FlErrs (S j)) I) as (Hp2 & Hc2 & Hcl2 & Hml2 & Hk2 & Hf2).
+      pose proof (set_flush_inv s (FlErrs (S j)) I) as (Hp2 & Hc2 & Hcl2 & Hk2 & Hf2).
       pose proof (set_flush_fields s (FlErrs (S j))) as (F1 & F2 & F3 & F4 & F5 & F6 & F7).
       unfold Inv, mk; cbn. rewrite Hp, Hcl'. cbn. rewrite <- ?F3, <- ?F4, <- ?F5. repeat split; auto.
     - (* ACall *) destruct (kc s) eqn:Ek; try discriminate.
       destruct (negb (calls s <? max_calls c)); [discriminate|].
       destruct (once s) eqn:Eo; injection H as <-.
-      + simple_inv Hp Hc Hcl Hml Hk.
+      + simple_inv Hp Hc Hcl Hk.
       + unfold Inv, mk; cbn. rewrite Hp. rewrite Hc. cbn. repeat split; auto.
-        intro Hx. destruct (Hml Hx) as [?|[? ?]]; auto.
-        (* mainLoop done before any Close: only when AutoCommit is off (init) *)
-        right. split; auto. congruence.
     - (* AKWaited *) destruct (kc s) eqn:Ek; try discriminate. destruct (closed_ch s); [|discriminate].
-      injection H as <-. simple_inv Hp Hc Hcl Hml Hk.
+      injection H as <-. simple_inv Hp Hc Hcl Hk.
     - (* AKAsync *) destruct (kc s) eqn:Ek; try discriminate. injection H as <-.
       unfold Inv, mk; cbn. repeat split; auto.
       + intros _. apply Hk. congruence.
@@ -173,7 +169,7 @@ Module OMP.
         try (let Hx := fresh "Hx" in intro Hx; specialize (Hcl Hx); congruence);
         try (intros _; apply Hk; congruence).
     - (* ARet *) destruct (kc s) eqn:Ek; try discriminate. injection H as <-.
-      simple_inv Hp Hc Hcl Hml Hk.
+      simple_inv Hp Hc Hcl Hk.
     - (* ARecv *) destruct (nth_error (poms s) i) as [p|] eqn:En; [|discriminate].
       destruct (len (errs p)); [discriminate|]. injection H as <-.
       apply inv_set_poms; auto. eapply forall_upd_nth_at; eauto.
@@ -194,7 +190,7 @@ Module OMP.
     closed (errs p) = negb (managed p).
   Proof.
     intros c l s p H Hin. assert (I : Inv s) by (apply (reach_inv c s); now exists l).
-    destruct I as (_ & _ & _ & _ & _ & Hf). rewrite Forall_forall in Hf. destruct (Hf p Hin) as [A B].
+    destruct I as (_ & _ & _ & _ & Hf). rewrite Forall_forall in Hf. destruct (Hf p Hin) as [A B].
     rewrite B, A. now rewrite negb_involutive.
   Qed.
 End OMP.
